@@ -90,6 +90,9 @@ class TP(ASTNode):
     def __len__(self) -> int:  # container-like: falsy in a boolean context while `items` is empty (may still hold other children)
         return len(self.items)
 
+    def __iter__(self):  # container-like: iterating over the node yields its `items`
+        return iter(self.items)
+
     # a per-instance serial number in a field that is neither an init argument nor compared: the snapshot of the input tree
     # notices if a transformation writes it (or anything else) back into an input node
     stamp: int = dataclasses.field(default=0, init=False, compare=False)
